@@ -23,7 +23,7 @@ NAME_POOL = ["OR", "AND", "NOT", "IMPLIES", "REQUIRES", "EXCLUDES", "EQUIVALENCE
 
 
 def names():
-    return st.one_of(S.ident_names(6), st.sampled_from(NAME_POOL)).filter(lambda n: n not in ("not", "and", "or", "XOR"))
+    return st.one_of(S.ident_names(6), st.sampled_from(NAME_POOL), S.dict_names(S._is_ident)).filter(lambda n: n not in ("not", "and", "or", "XOR"))
 
 
 def _ctc(draw, nms, feats):
